@@ -135,6 +135,38 @@ class Module:
         return self.name[len(PKG) + 1:] if self.name.startswith(PKG + '.') else self.name
 
 
+def _only_value_objects_before(whole: ast.expr, load: ast.Name, moved: ast.expr) -> bool:
+    """Moving `moved` to the position of `load` inside `whole` changes the evaluation order only with respect to the calls that
+    are evaluated before that position.  True when each of those is the construction of a value object (`Comment(text)`:
+    capitalised callee, arguments plain names / constants) from names that `moved` does not mention - neither can observe
+    the other.  Calls that enclose the position are evaluated after their arguments either way; calls to the right of it are
+    evaluated after `moved` either way."""
+    ancestors = set()
+
+    def mark(n, chain):
+        if n is load:
+            ancestors.update(id(c) for c in chain)
+            return True
+        return any(mark(c, chain + [n]) for c in ast.iter_child_nodes(n))
+    if not mark(whole, []):
+        return False
+    moved_names = {x.id for x in ast.walk(moved) if isinstance(x, ast.Name)}
+    pos = (getattr(load, 'lineno', 0), getattr(load, 'col_offset', 0))
+    for c in ast.walk(whole):
+        if not isinstance(c, ast.Call) or id(c) in ancestors:
+            continue
+        if (getattr(c, 'lineno', 0), getattr(c, 'col_offset', 0)) > pos:
+            continue
+        if not (isinstance(c.func, ast.Name) and c.func.id[:1].isupper() and not c.keywords and
+                all(isinstance(x, (ast.Name, ast.Constant)) for x in c.args)):
+            return False
+        if any(isinstance(x, ast.Name) and x.id in moved_names for x in c.args):
+            return False
+        if any(isinstance(x, ast.Call) and x is not c for x in ast.walk(c)):
+            return False
+    return True
+
+
 def normalise_tree(tree: ast.AST) -> None:
     """Semantics-preserving normal form the rules are written against (so that they do not depend on these choices):
        N1  `x = E` immediately followed by `return x`, x used nowhere else   ->  `return E`
@@ -191,7 +223,8 @@ def normalise_tree(tree: ast.AST) -> None:
                                                        ast.cmpop, ast.Starred, ast.keyword, ast.Call))
                                         for x in ast.walk(r.value))
                         n_calls = sum(isinstance(x, ast.Call) for x in ast.walk(r.value))
-                        if not (pure_(a.value) or n_calls <= 1 and rest_pure):
+                        if not (pure_(a.value) or n_calls <= 1 and rest_pure or
+                                rest_pure and _only_value_objects_before(r.value, loads[0], a.value)):
                             continue
                         if loads[0] is r.value:
                             r.value = a.value
@@ -480,12 +513,21 @@ class Program:
             if f.parent is not None and f.nested:
                 return None
             a = f.node.args
-            if a.vararg or a.kwarg:
+            if a.kwarg:
                 return None
             body = [st for st in f.node.body
                     if not (isinstance(st, ast.Expr) and isinstance(st.value, ast.Constant) and isinstance(st.value.value, str))]
             if len(body) != 1 or not isinstance(body[0], ast.Return) or body[0].value is None:
                 return None
+            if a.vararg:
+                # `*rest` only handed on as `g(..., *rest)`: the surplus arguments of the call are spliced in
+                parents = {id(c_): p_ for p_ in ast.walk(body[0].value) for c_ in ast.iter_child_nodes(p_)}
+                for x in ast.walk(body[0].value):
+                    if isinstance(x, ast.Name) and x.id == a.vararg.arg:
+                        st_ = parents.get(id(x))
+                        if not (isinstance(st_, ast.Starred) and isinstance(parents.get(id(st_)), ast.Call)
+                                and st_ in parents[id(st_)].args):
+                            return None
             if any(isinstance(x, (ast.Yield, ast.YieldFrom, ast.Lambda, ast.NamedExpr, ast.Await)) for x in ast.walk(body[0].value)):
                 return None
             return body[0].value
@@ -553,8 +595,11 @@ class Program:
                     if recv is not None and params[:1] == ['self']:
                         binding['self'] = recv
                         params = params[1:]
+                    surplus: List[ast.expr] = []
                     if len(call.args) > len(params):
-                        continue
+                        if not a.vararg or not all(pure(v) for v in call.args[len(params):]):
+                            continue
+                        surplus = list(call.args[len(params):])
                     for p_, v in zip(params, call.args):
                         binding[p_] = v
                     ok = True
@@ -589,6 +634,8 @@ class Program:
                                 if isinstance(t, ast.Name):
                                     bound.setdefault(t.id, f'{t.id}__i{next(counter)}')
 
+                    vararg = a.vararg.arg if a.vararg else None
+
                     class Sub(ast.NodeTransformer):
                         def visit_Name(self, node):
                             if node.id in bound:
@@ -596,6 +643,17 @@ class Program:
                             if node.id in binding and isinstance(node.ctx, ast.Load):
                                 return copy.deepcopy(binding[node.id])
                             return node
+
+                        def visit_Call(self, node):
+                            if vararg is not None:
+                                args2 = []
+                                for x_ in node.args:
+                                    if isinstance(x_, ast.Starred) and isinstance(x_.value, ast.Name) and x_.value.id == vararg:
+                                        args2.extend(copy.deepcopy(v_) for v_ in surplus)
+                                    else:
+                                        args2.append(x_)
+                                node.args = args2
+                            return self.generic_visit(node)
                     new = Sub().visit(new)
                     for x in ast.walk(new):
                         if hasattr(x, 'lineno') or isinstance(x, (ast.expr, ast.stmt)):
@@ -623,6 +681,26 @@ class Program:
                         self.inlined.append((caller.fq, callee.fq))
             if not changed:
                 break
+        # a local helper function every call of which was expanded is dead code: the definition goes
+        inlined_callees = {c_ for _k, c_ in self.inlined}
+        for caller in list(self.functions.values()):
+            for nm, nf in list(caller.nested.items()):
+                if nf.fq not in inlined_callees:
+                    continue
+                if any(isinstance(x, ast.Name) and x.id == nm for x in ast.walk(caller.node)):
+                    continue
+                for holder in ast.walk(caller.node):
+                    for fld in ('body', 'orelse', 'finalbody'):
+                        blk = getattr(holder, fld, None)
+                        if isinstance(blk, list) and nf.node in blk and len(blk) > 1:
+                            blk.remove(nf.node)
+                            caller.nested.pop(nm, None)
+
+                            def forget(fi: FuncInfo):
+                                self.functions.pop(fi.fq, None)
+                                for n_ in list(fi.nested.values()):
+                                    forget(n_)
+                            forget(nf)
 
     # -- N11 --------------------------------------------------------------------------------------------------------------
     def _inline_void_procedures(self):
@@ -897,6 +975,10 @@ class Program:
         def pure(e) -> bool:
             return all(isinstance(x, (ast.Name, ast.Attribute, ast.Constant, ast.expr_context)) for x in ast.walk(e))
 
+        def pure_test(e) -> bool:
+            return all(isinstance(x, (ast.Name, ast.Attribute, ast.Constant, ast.Compare, ast.BoolOp, ast.UnaryOp, ast.expr_context,
+                                      ast.cmpop, ast.boolop, ast.unaryop)) for x in ast.walk(e))
+
         def literal_elems(fnode, it: ast.expr, mod_=None) -> Optional[List[ast.expr]]:
             if isinstance(it, ast.Name) and mod_ is not None and not any(
                     isinstance(x, ast.Name) and x.id == it.id and isinstance(x.ctx, ast.Store) for x in ast.walk(fnode)) and \
@@ -971,7 +1053,7 @@ class Program:
                                 if len(g.generators) != 1 or g.generators[0].is_async:
                                     continue
                                 gen = g.generators[0]
-                                elems = literal_elems(fnode, gen.iter)
+                                elems = literal_elems(fnode, gen.iter, mod)
                                 bs = bindings(gen.target, elems) if elems is not None else None
                                 if bs is None:
                                     continue
@@ -998,6 +1080,48 @@ class Program:
                                 else:
                                     setattr(par, fld, new)
                                 changed = True
+                    # N18: `sel = K1 if c1 else K2 if c2 else K3` (constants) immediately followed by `return F(sel)`, sel used
+                    #      nowhere else  ->  `if c1: return F(K1) elif c2: return F(K2) else: return F(K3)`, `X if K else Y` folded
+                    for par in list(ast.walk(fnode)):
+                        for fld in ('body', 'orelse', 'finalbody'):
+                            blk = getattr(par, fld, None)
+                            if not (isinstance(blk, list) and len(blk) >= 2 and isinstance(blk[0], ast.stmt)):
+                                continue
+                            a_, r_ = blk[-2], blk[-1]
+                            if not (isinstance(a_, ast.Assign) and len(a_.targets) == 1 and isinstance(a_.targets[0], ast.Name) and
+                                    isinstance(a_.value, ast.IfExp) and isinstance(r_, ast.Return) and r_.value is not None):
+                                continue
+                            nm = a_.targets[0].id
+                            occ = [x for x in ast.walk(fnode) if isinstance(x, ast.Name) and x.id == nm]
+                            in_ret = [x for x in ast.walk(r_.value) if isinstance(x, ast.Name) and x.id == nm]
+                            if len(occ) != len(in_ret) + 1 or not in_ret:
+                                continue
+                            if any(isinstance(x, (ast.Lambda, ast.ListComp, ast.SetComp, ast.DictComp, ast.GeneratorExp)) and
+                                   any(y.id == nm for y in ast.walk(x) if isinstance(y, ast.Name)) for x in ast.walk(r_.value)):
+                                continue
+                            leaves, tests, e_ = [], [], a_.value
+                            while isinstance(e_, ast.IfExp):
+                                tests.append(e_.test)
+                                leaves.append(e_.body)
+                                e_ = e_.orelse
+                            leaves.append(e_)
+                            if not all(isinstance(x, ast.Constant) for x in leaves) or len(leaves) > 6 or not all(pure_test(t_) for t_ in tests):
+                                continue
+
+                            def fold_const(e2):
+                                class F(ast.NodeTransformer):
+                                    def visit_IfExp(s2, node):
+                                        s2.generic_visit(node)
+                                        if isinstance(node.test, ast.Constant):
+                                            return node.body if node.test.value else node.orelse
+                                        return node
+                                return F().visit(e2)
+                            rets = [ast.copy_location(ast.Return(value=fold_const(subst(r_.value, {nm: k_}))), r_) for k_ in leaves]
+                            tail2: List[ast.stmt] = [rets[-1]]
+                            for t_, rt_ in zip(reversed(tests), reversed(rets[:-1])):
+                                tail2 = [ast.copy_location(ast.If(test=t_, body=[rt_], orelse=tail2), a_)]
+                            blk[-2:] = tail2
+                            changed = True
                     # N8 (comprehensions): a list / dict comprehension over a literal or constant tuple, no filter -> a display
                     for par in list(ast.walk(fnode)):
                         for fld, val in list(ast.iter_fields(par)):
@@ -1140,6 +1264,49 @@ class Program:
                 index_nested(nfi, sub)
         index_nested(fi, node)
         return fi
+
+    def instantiated_classes(self) -> Set[str]:
+        """fq of the package classes that package code constructs somewhere (`C(...)`, or `cls(...)` in a classmethod of C or
+        of a base class of C)."""
+        cache = self.__dict__.get('_instantiated')
+        if cache is None:
+            cache = set()
+            for mod in self.modules.values():
+                for n in ast.walk(mod.tree):
+                    if isinstance(n, ast.Call) and isinstance(n.func, (ast.Name, ast.Attribute)):
+                        sym = self.resolve_expr_symbol(mod, n.func)
+                        if isinstance(sym, ClassInfo):
+                            cache.add(sym.fq)
+            for f in self.functions.values():
+                if getattr(f, 'is_classmethod', False) and f.cls is not None and any(
+                        isinstance(n, ast.Call) and isinstance(n.func, ast.Name) and n.func.id == 'cls' for n in ast.walk(f.node)):
+                    for c in self.classes.values():
+                        if self.is_subclass(c.fq, f.cls.fq):
+                            cache.add(c.fq)
+            self.__dict__['_instantiated'] = cache
+        return cache
+
+    def virtual_targets(self, rc: ClassInfo, name: str, static: 'FuncInfo') -> List['FuncInfo']:
+        """The implementations a call `obj.name(...)` may run when obj is statically an `rc`: that of every class at or
+        below rc that the package constructs (all of them when it constructs none).  The implementation of rc itself also
+        counts when rc is public and concrete - callers may hand in an instance of their own - but not when rc is private
+        (`_Base`) or the method is abstract and the package never constructs an rc: a template-method base class whose
+        placeholder methods raise NotImplementedError is never the dynamic class."""
+        cands = [rc] + [c for c in self.classes.values() if c is not rc and self.is_subclass(c.fq, rc.fq)]
+        if len(cands) == 1:
+            return [static]
+        inst = [c for c in cands if c.fq in self.instantiated_classes()]
+        if not inst:
+            inst = cands
+        out: List[FuncInfo] = []
+        for c in inst:
+            m = self.lookup_method(c, name)
+            if m is not None and m not in out:
+                out.append(m)
+        abstract = any(ast.unparse(d).endswith('abstractmethod') for d in static.node.decorator_list)
+        if rc not in inst and not rc.name.startswith('_') and not abstract and static not in out:
+            out.append(static)
+        return out or [static]
 
     def bind_call(self, mod: Module, call: ast.Call, callee: Optional['FuncInfo'] = None) -> Dict[str, ast.expr]:
         """parameter / field name -> argument expression of a call of a package class or function, however the source
@@ -1426,6 +1593,10 @@ class Program:
                 return union(self.ann_to_type(mod, a, self_cls) for a in args)
             if hname in ('Tuple', 'tuple'):
                 return ('tuple', tuple(self.ann_to_type(mod, a, self_cls) for a in args))
+            if hname in ('Type', 'type') and len(args) == 1:
+                inner = self.ann_to_type(mod, args[0], self_cls)
+                if inner[0] == 'cls':
+                    return ('type', inner[1])       # the class object itself (or one of its subclasses)
             return ANY
         if isinstance(ann, (ast.Name, ast.Attribute)):
             nm = ann.id if isinstance(ann, ast.Name) else ann.attr
@@ -1531,7 +1702,7 @@ class TypeEnv:
                 for t in n.targets:
                     self._bind_target(t, ('expr', n.value))
             elif isinstance(n, ast.AnnAssign) and isinstance(n.target, ast.Name):
-                self._assign_sites.setdefault(n.target.id, []).append(('ann', n.annotation))
+                self._assign_sites.setdefault(n.target.id, []).append(('ann', n.annotation, n.value))
             elif isinstance(n, ast.AugAssign) and isinstance(n.target, ast.Name):
                 pass
             elif isinstance(n, (ast.For, ast.AsyncFor)):
@@ -1548,9 +1719,24 @@ class TypeEnv:
                 self._bind_target(n.target, ('expr', n.value))
             elif isinstance(n, ast.Lambda):
                 la = n.args
+                # `xs.sort(key=lambda x: ...)`, `sorted / min / max(xs, key=lambda x: ...)`, `filter / map(lambda x: ..., xs)`:
+                # the single parameter ranges over the elements of xs
+                src = None
+                par_ = self.prog.parent(n)
+                call_ = self.prog.parent(par_) if isinstance(par_, ast.keyword) else par_
+                if isinstance(call_, ast.Call) and len(la.posonlyargs) + len(la.args) == 1 and not la.kwonlyargs and \
+                        not la.vararg and not la.kwarg:
+                    if isinstance(par_, ast.keyword) and par_.arg == 'key':
+                        if isinstance(call_.func, ast.Attribute) and call_.func.attr == 'sort':
+                            src = call_.func.value
+                        elif isinstance(call_.func, ast.Name) and call_.func.id in ('sorted', 'min', 'max') and len(call_.args) == 1:
+                            src = call_.args[0]
+                    elif isinstance(call_.func, ast.Name) and call_.func.id in ('filter', 'map') and len(call_.args) == 2 and \
+                            call_.args[0] is n:
+                        src = call_.args[1]
                 for a_ in list(la.posonlyargs) + list(la.args) + list(la.kwonlyargs) + \
                         [x for x in (la.vararg, la.kwarg) if x is not None]:
-                    self._assign_sites.setdefault(a_.arg, []).append(('lambda', n))
+                    self._assign_sites.setdefault(a_.arg, []).append(('elem', src) if src is not None else ('lambda', n))
 
         walk(f.node)
 
@@ -1864,11 +2050,69 @@ class TypeEnv:
             via = self._table_callees(e)
             if via:
                 return via
+            via = self._local_lambda_callees(e)
+            if via:
+                return via
             if isinstance(e.func, ast.Name) and e.func.id in [a.arg for a in self.fn.params()] and \
                     e.func.id not in self._assign_sites:
                 via = self._param_callees(e.func.id)
                 if via:
                     return via
+        return out
+
+    def single_def(self, name: str) -> Optional[ast.AST]:
+        """The one expression a local is ever bound to (`x = E` or `x: T = E`, nothing else binds x), else None."""
+        sites = self._assign_sites.get(name, [])
+        if len(sites) != 1 or name in [a.arg for a in self.fn.params()]:
+            return None
+        if sites[0][0] == 'expr':
+            return sites[0][1]
+        if sites[0][0] == 'ann' and len(sites[0]) > 2 and sites[0][2] is not None:
+            return sites[0][2]
+        return None
+
+    def _local_lambda_callees(self, e: ast.Call) -> List[Any]:
+        """`f(x)` / `table[key](x)` / `table.get(key)(x)` where f / every value of `table` is a lambda (or a function of the
+        package) written in THIS function (single-definition local): ('lambda', node) markers - the body of a lambda belongs
+        to the function it is written in and is analysed there - plus the named functions."""
+        single_def = self.single_def
+        f = e.func
+        vals: Optional[List[ast.expr]] = None
+        if isinstance(f, ast.Name):
+            d = single_def(f.id)
+            if isinstance(d, ast.Lambda):
+                vals = [d]
+        else:
+            tbl = f.value if isinstance(f, ast.Subscript) else \
+                f.func.value if isinstance(f, ast.Call) and isinstance(f.func, ast.Attribute) and f.func.attr == 'get' else None
+            if isinstance(tbl, ast.Name):
+                d = single_def(tbl.id)
+                if isinstance(d, ast.Dict) and d.values and all(k is not None for k in d.keys):
+                    # the table must not be changed after it was written
+                    stores = [x for x in iter_own_nodes(self.fn.node) if isinstance(x, ast.Subscript) and
+                              isinstance(x.ctx, (ast.Store, ast.Del)) and isinstance(x.value, ast.Name) and x.value.id == tbl.id]
+                    calls = [x for x in iter_own_nodes(self.fn.node) if isinstance(x, ast.Attribute) and isinstance(x.value, ast.Name)
+                             and x.value.id == tbl.id and x.attr in ('update', 'setdefault', 'pop', 'clear', 'popitem')]
+                    if not stores and not calls:
+                        vals = list(d.values)
+                        if isinstance(f, ast.Call) and len(f.args) > 1:
+                            vals.append(f.args[1])
+        if not vals:
+            return []
+        out: List[Any] = []
+        for v in vals:
+            if isinstance(v, ast.Lambda):
+                out.append(('lambda', v))
+            elif isinstance(v, (ast.Name, ast.Attribute)):
+                sym = self.prog.resolve_expr_symbol(self.mod, v)
+                if isinstance(sym, FuncInfo):
+                    out.append(sym)
+                elif isinstance(sym, ClassInfo):
+                    out.extend(self._ctor_callees(sym))
+                else:
+                    return []
+            else:
+                return []
         return out
 
     def _param_callees(self, pname: str) -> List[Any]:
@@ -2052,10 +2296,28 @@ class TypeEnv:
                     return [a.methods[f.attr]]
             return [('builtin', f'object.{f.attr}')]
         ft = self.type_of(f)
+        if ft[0] == 'opt' and ft[1][0] == 'type':
+            ft = ft[1]          # calling None is the caller's obligation (optional-call), the callees are those of the class
         if ft[0] == 'type':
             c = prog.classes.get(ft[1])
-            return self._ctor_callees(c) if c else []
+            if c is None:
+                return []
+            out = list(self._ctor_callees(c))
+            if isinstance(f, ast.Name) and (f.id in self._assign_sites or f.id in self.vars):
+                # a class object held in a variable may be any subclass of its static type
+                for sub in prog.classes.values():
+                    if sub is not c and prog.is_subclass(sub.fq, c.fq):
+                        for x in self._ctor_callees(sub):
+                            if not any(x is y or x == y for y in out):
+                                out.append(x)
+            return out
         if ft[0] == 'func':
+            if isinstance(f, ast.Attribute) and isinstance(ft[1], FuncInfo) and ft[1].cls is not None and \
+                    not ft[1].is_static and not isinstance(prog.resolve_expr_symbol(self.mod, f.value), ClassInfo):
+                rt = strip_opt(self.type_of(f.value))
+                rc = prog.classes.get(rt[1]) if rt[0] == 'cls' else None
+                if rc is not None:
+                    return prog.virtual_targets(rc, f.attr, ft[1])
             return [ft[1]]
         if ft[0] == 'strmethod':
             return [('builtin', f'str.{ft[1]}')]
